@@ -146,6 +146,49 @@ def c03(tier):
                           dict(property=pid, case=cid, items=t["_items"], repaired_lines=t["_after"], flags={k: fl[k] for k in ("_N", "_Z", "_C", "_V")},
                                path_ideal=[e["addr"] - IO_BASE for e in m["want"]["_io"]], path_repaired=[e["addr"] - IO_BASE for e in m["got"]["_io"]],
                                halted=m["halted"], fault=m["fault"]))
+    # ---- Layer 2: BranchFix.tla (check_branches as coded) model-checked against the Layer-1 meaning of branches on every
+    # body within its bound, and bound to the real code by replaying the model's own cases (drift is reported, not a verdict)
+    d2 = common.workdir("bf_c03")
+    bcfg = os.path.join(d2, "MCBranchFix.cfg")
+    mlen = 4 if tier == "quick" else 5
+    open(bcfg, "w").write('SPECIFICATION Spec\nCONSTANTS MaxLen = %d\n Kinds = {"BEQ", "BCC", "BMI", "BPL"}\n Sizes = {3, 66, 124, 126}\n'
+                          'INVARIANT Terminates\nINVARIANT RangeOK\nINVARIANT LabelsOK\nINVARIANT PathOK\nINVARIANT EmitConf\nCHECK_DEADLOCK FALSE\n' % mlen)
+    bres = common.run_tlc("MCBranchFix", cfg=bcfg, name="bf_c03", tags={"CONF"}, workers=8, heap="8g", timeout=2400)
+    if bres.violated_invariant:
+        raise common.ToolError("design-level check failed: BranchFix violates %s (the model of check_branches is wrong or the algorithm is): %s" % (bres.violated_invariant, bres.raw_tail[-1200:]))
+    common.require_ok(bres, "MCBranchFix")
+    confs = [o for (_, o) in bres.lines]
+    confs.sort(key=lambda o: json.dumps(o, sort_keys=True))
+    rndc = random.Random(common.seed())
+    if len(confs) > 1500:
+        confs = rndc.sample(confs, 1500)
+
+    def lname(n):
+        return ("L%d" % n[1]) if n[0] == "L" else (".%s%d" % (n[0], n[1]))
+
+    def to_lines(code):
+        out = []
+        for it in code:
+            if it["k"] == "lab":
+                out.append(dict(k="l", name=lname(it["name"])))
+            elif it["k"] == "br":
+                out.append(dict(k="i", mn=it["mn"], op=lname(it["to"]), nb=it["nb"], cy=2, prot=False))
+            else:
+                out.append(dict(k="a", text="SEG%d" % it["id"], nb=it["nb"]))
+        return out
+
+    def shape(lines):
+        return [(l["k"], l.get("mn", ""), l.get("op", l.get("name", l.get("text", ""))), l.get("nb", 0)) for l in lines if l["k"] in ("l", "i", "a")]
+    cobs = common.run_harness("asmapi", [dict(id="bf%d" % i, lines=to_lines(c["code"]), ops=["check_branches"]) for i, c in enumerate(confs)], "c03bf")
+    drift = []
+    for c, ob in zip(confs, cobs):
+        o = ob[0] if ob else {"status": "missing"}
+        if o.get("status") != "ok" or shape(o["lines"]) != shape(to_lines(c["fixed"])) or o.get("fixes") != c["fixes"]:
+            drift.append(dict(body=shape(to_lines(c["code"])), model=shape(to_lines(c["fixed"])), real=shape(o.get("lines", [])) if o.get("status") == "ok" else o.get("status")))
+    layer2 = dict(bodies_model_checked=bres.distinct, max_items=mlen, invariants=["Terminates", "RangeOK", "LabelsOK", "PathOK"], cases_replayed_into_check_branches=len(confs),
+                  model_conformant=(len(drift) == 0), first_drift=(drift[0] if drift else None))
+    if drift:
+        log("NOTE: check_branches() no longer behaves like BranchFix.tla on %d of %d replayed bodies (model drift)" % (len(drift), len(confs)))
     # ---- program level: loops and ifs whose bodies straddle the limit, compiled by the real compiler; the emitted
     # functions (after its own check_branches) are measured by Asm.tla with true encoding sizes
     from . import vocab
@@ -180,10 +223,10 @@ def c03(tier):
             verdict.violation("%s in compiled function %s: %s" % (av["kind"], av["f"], av["detail"]), dict(property=pid, function=av["f"], kind=av["kind"], detail=av["detail"], source=psrc[av["f"]]))
     if repaired < 10 or near < 20:
         raise common.ToolError("vacuous: only %d layouts needed a repair, %d compiled functions near the limit" % (repaired, near))
-    cov = dict(states=rres.distinct + ares.distinct + gres.distinct, transitions=rres.generated + ares.generated + gres.generated,
+    cov = dict(states=rres.distinct + ares.distinct + gres.distinct + bres.distinct, transitions=rres.generated + ares.generated + gres.generated + bres.generated,
                traces_validated_against_impl=len(tcases) * 8 + len(recs),
                samples=[dict(id=t["id"], layout=t["_items"], repaired=[(l.get("mn", "") + " " + l.get("op", l.get("name", ""))).strip() for l in t["_after"] if l["k"] in ("i", "l") and l.get("mn") != "NOP"][:30]) for t in tcases[:2]],
-               layouts=len(cases), layouts_needing_repair=repaired, compiled_functions_measured=len(precs), compiled_functions_of_100_to_160_bytes=near, executions_compared=len(tcases) * 8 * 2, executions_cut_at_bound=cut,
+               layer2_BranchFix=layer2, layouts=len(cases), layouts_needing_repair=repaired, compiled_functions_measured=len(precs), compiled_functions_of_100_to_160_bytes=near, executions_compared=len(tcases) * 8 * 2, executions_cut_at_bound=cut,
                exhaustive=True, families=sorted(set(c["fam"] for c in cases)),
                explanation="Every layout enumerated by GenLayout.tla is built through AssemblyCode::append_*, repaired by check_branches(); Asm.tla measures "
                            "every branch displacement with true encoding sizes and checks labels and size; Refine.tla runs the original (ideal, "
